@@ -51,6 +51,39 @@ func (w *World) noteTrigger(n *Node, h, v uint64) {
 		return
 	}
 	n.raiseWatermark(hv{h, v + 1})
+	// a trigger for the position the node is in must make it leave that position (C19: an armed, un-superseded timer
+	// delivers its trigger and it is acted upon; C05's timing premise)
+	if cur := n.hv(); cur.h == h && cur.v == v && w.inCommittee(h, n.id) {
+		n.dueTrigger = &hv{h, v}
+		n.dueStep = w.step
+	}
+}
+
+// checkDueTriggers: once the node is settled, the trigger for its then-current position has taken effect.
+func (w *World) checkDueTriggers() {
+	if !w.checks("C19") && !w.checks("C05") {
+		return
+	}
+	for _, n := range w.nodes {
+		if n.byz || n.dueTrigger == nil {
+			continue
+		}
+		if !n.alive || n.shuttingDown || n.lh == nil {
+			n.dueTrigger = nil
+			continue
+		}
+		if !n.settled() {
+			continue
+		}
+		d := *n.dueTrigger
+		n.dueTrigger = nil
+		if cur := n.hv(); !d.less(cur) {
+			w.violate("C19", "runtime/trigger-not-acted-upon", "n%d: the election trigger for its current position (h%d,v%d) was handed to the main loop, the worker has since come to rest, and the node is still at (h%d,v%d)", n.idx, d.h, d.v, cur.h, cur.v)
+			w.violate("C05", "trigger-not-acted-upon", "n%d: the election trigger for its current position (h%d,v%d) was handed to the main loop, the worker has since come to rest, and the node is still at (h%d,v%d)", n.idx, d.h, d.v, cur.h, cur.v)
+		} else {
+			w.probe("trigger-acted-upon")
+		}
+	}
 }
 
 func (w *World) onRealTimerDue(n *Node) {
